@@ -23,9 +23,9 @@ Definition spec_rf (o : opts) : Q := if Qeq_bool (rand_factor o) 0 then 54043195
 Definition spec_centre (o : opts) (n : Z) : Q := Qmin (spec_init o * Qpower (spec_mult o) n) (spec_max o).
 (** [1 ns] of tolerance on either side (float rounding, and the whole-nanosecond floor). *)
 Definition spec_ge_lower (o : opts) (n : Z) (x : Z) : bool :=
-  let c := spec_centre o n in Qle_bool (c - spec_rf o * c - 1) (inject_Z x).
+  let c := spec_centre o n in Qle_bool (c * (1 - spec_rf o) - 1) (inject_Z x).
 Definition spec_le_upper (o : opts) (n : Z) (x : Z) : bool :=
-  let c := spec_centre o n in Qle_bool (inject_Z x) (c + spec_rf o * c + 1).
+  let c := spec_centre o n in Qle_bool (inject_Z x) (c * (1 + spec_rf o) + 1).
 
 (** * retryIn samples *)
 (** (options as given to Start, number of NextCh calls made first, whether
@@ -34,10 +34,30 @@ Definition spec_le_upper (o : opts) (n : Z) (x : Z) : bool :=
     draw is not known). *)
 Definition ri_case := (opts * Z * bool * Z * list (Z * Z))%type.
 
+(** What NextCh does to the state, without computing the channel it returns
+    (= without evaluating retryIn: positions of several hundred are reached
+    this way at no cost).  Proofs/RetryLts.v, [skip_nextch_is_step]: it is the
+    state component of [step s (LCallNextCh u)]. *)
+Definition skip_nextch (s : rstate) (u : Q) : rstate :=
+  if is_reset s then
+    {| ropts := ropts s; cur := cur s; is_reset := false; closed := closed s;
+       cancelled := cancelled s; ph := PIdle; g_now := g_now s; g_call_at := g_call_at s;
+       g_u := g_u s; g_attempts := g_attempts s + 1; g_clean := false |}
+  else
+    let c := cur s + 1 in
+    if (0 <? max_retries (ropts s)) && (max_retries (ropts s) <? c) then
+      {| ropts := ropts s; cur := c; is_reset := false; closed := closed s;
+         cancelled := cancelled s; ph := PIdle; g_now := g_now s; g_call_at := g_call_at s;
+         g_u := g_u s; g_attempts := g_attempts s; g_clean := false |}
+    else
+      {| ropts := ropts s; cur := c; is_reset := false; closed := closed s;
+         cancelled := cancelled s; ph := PIdle; g_now := g_now s; g_call_at := g_call_at s;
+         g_u := u; g_attempts := g_attempts s + 1; g_clean := false |}.
+
 Fixpoint iter_nextch (k : nat) (s : rstate) : option rstate :=
   match k with
   | O => Some s
-  | S k' => match step s (LCallNextCh 0) with Some (s', _) => iter_nextch k' s' | None => None end
+  | S k' => match ph s with PIdle => iter_nextch k' (skip_nextch s 0) | _ => None end
   end.
 
 Definition ri_prep (o : opts) (k : Z) (rst : bool) : option rstate :=
@@ -48,24 +68,42 @@ Definition ri_prep (o : opts) (k : Z) (rst : bool) : option rstate :=
 
 Definition near (a b : Z) : bool := (a - 1 <=? b) && (b <=? a + 1).
 
+(** Exact evaluation of one sample without a big-number division and without
+    a product of two big numbers (Coq's binary integers make both quadratic;
+    Multiplier^n has thousands of bits far down a gentle schedule):
+    [fma base span k] is [base + (k/2^53) * span] with the factors ordered so
+    that the small or power-of-two one drives each product, and
+    [near_trunc q x] decides [near (Qtrunc q) x] by two multiplications with
+    the small [x].  Proofs/RetryLts.v, [fast_sample_is_model]: together they
+    compute [near (jitter b rf (u_of k)) x]. *)
+Definition fma (base span : Q) (k : Z) : Q :=
+  Qmake (Zpos (Qden span * two53) * Qnum base + Zpos (Qden base) * (k * Qnum span))
+        (Qden base * (Qden span * two53)).
+Definition trunc_le (q : Q) (y : Z) : bool :=       (* Qtrunc q <= y *)
+  let n := Qnum q in let d := Zpos (Qden q) in
+  if 0 <=? n then n <? (y + 1) * d else n <=? y * d.
+Definition trunc_ge (q : Q) (y : Z) : bool :=       (* y <= Qtrunc q *)
+  let n := Qnum q in let d := Zpos (Qden q) in
+  if 0 <=? n then y * d <=? n else (y - 1) * d <? n.
+Definition near_trunc (q : Q) (x : Z) : bool := trunc_ge q (x - 1) && trunc_le q (x + 1).
+Definition fast_base (b rf : Q) : Q := (b * (1 - rf))%Q.
+Definition fast_span (b rf : Q) : Q := ((2 # 1) * rf * b + 1)%Q.
+
 Definition ri_model_bad (c : ri_case) : bool :=
   let '(o, k, rst, cur_obs, samples) := c in
   match ri_prep o k rst with
   | None => true
   | Some s =>
       let b := backoff (ropts s) (cur s) in
-      let delta := (rand_factor (ropts s) * b)%Q in
-      (* [jitter b rf u] is by definition [jitter_at (b - delta) (2*delta + 1) u];
-         base and span are computed once for all the samples *)
-      let base := Qred (b - delta) in
-      let span := Qred ((2 # 1) * delta + 1) in
-      let lo_m := jitter_at base span 0 in
-      let hi_m := jitter_at base span u_max in
+      let base := fast_base b (rand_factor (ropts s)) in
+      let span := fast_span b (rand_factor (ropts s)) in
       negb ((cur s =? cur_obs) &&
             forallb (fun p : Z * Z =>
                        let (kk, x) := p in
-                       if kk <? 0 then (lo_m - 1 <=? x) && (x <=? hi_m + 1)
-                       else near (jitter_at base span (u_of kk)) x) samples)
+                       if kk <? 0 then
+                         (* draw not known: between the draws 0 and 1 - 2^-53, 1 ns of tolerance *)
+                         trunc_le (fma base span 0) (x + 1) && trunc_ge (fma base span (Zpos two53 - 1)) (x - 1)
+                       else near_trunc (fma base span kk) x) samples)
   end.
 
 (** Plain meaning: every sample lies in the band around min(I x M^n, Max),
@@ -74,8 +112,9 @@ Definition ri_oracle_code (c : ri_case) : N :=
   let '(o, k, rst, cur_obs, samples) := c in
   let n := if rst then 0 else cur_obs in
   let c := spec_centre o n in
-  let lower := Qred (c - spec_rf o * c - 1) in
-  let upper := Qred (c + spec_rf o * c + 1) in
+  (* c - rf*c - 1 and c + rf*c + 1, written so that no numerator meets another big one *)
+  let lower := (c * (1 - spec_rf o) - 1)%Q in
+  let upper := (c * (1 + spec_rf o) + 1)%Q in
   if negb (forallb (fun p : Z * Z => Qle_bool lower (inject_Z (snd p))) samples) then 1%N      (* below the band *)
   else if negb (forallb (fun p : Z * Z => Qle_bool (inject_Z (snd p)) upper) samples) then 2%N  (* above the band *)
   else 0%N.
